@@ -16,8 +16,8 @@ type prod struct {
 	mk   func(in []int) (fp.Iterator[int], []int)
 }
 
-func ufP(name string) func(int) bool  { return func(x int) bool { return zz.UFBool(name, x) } }
-func ufF(name string) func(int) int   { return func(x int) int { return zz.UFInt(name, x) } }
+func ufP(name string) func(int) bool { return func(x int) bool { return zz.UFBool(name, x) } }
+func ufF(name string) func(int) int  { return func(x int) int { return zz.UFInt(name, x) } }
 func ufF2(name string) func(int, int) int {
 	return func(x, y int) int { return zz.UFInt(name, x, y) }
 }
